@@ -335,6 +335,12 @@ func (m *interp) exec(s *stmt, env *menv, pending *[]mval) ctl {
 				return c
 			}
 		}
+	case sForIn:
+		// the closing value is a to-be-closed variable of a scope around the loop
+		m.feat["for-closing-value"] = true
+		hidden := &stmt{k: sLocalClose, name: "(for state)", exps: s.exps, line: s.line}
+		loop := &stmt{k: sFor, name: s.name, n: s.n, body: s.body, line: s.line, end: s.end}
+		return m.execBlock([]*stmt{hidden, loop}, env)
 	case sWhile:
 		for {
 			g := m.globals[s.name]
